@@ -223,14 +223,16 @@ Definition jurl_text (u : jurl) : string :=
 Definition jurl_render (u : jurl) (iss : string) : string :=
   match u with JLit s => s | JTpl p s => (p ++ iss ++ s)%string end.
 
-(** [jk_headers]: the endpoint's literal headers, sorted, including the default Accept *)
-Record jk_cfg := { jk_url : jurl; jk_headers : alist; jk_ttl : option Z }.
+(** [jk_headers]: the endpoint's literal headers, sorted, including the default Accept;
+    [jk_validate]: `validate_jwk` (default true): the certificate chain of a fetched JWK is validated *)
+Record jk_cfg := { jk_url : jurl; jk_headers : alist; jk_ttl : option Z; jk_validate : bool }.
 
 (** a presented token: claimed issuer, key id, the issuer whose key really signed it, subject *)
 Record jtok := { t_iss : string; t_kid : string; t_signer : string; t_sub : string }.
 
-(** what is published at a JWKS URL: key ids with the issuer the key belongs to *)
-Definition jwks_world := list (string * list (string * string)).
+(** what is published at a JWKS URL: key ids with the issuer the key belongs to and whether the
+    key's certificate chain (if it has one) validates (pkix validation is an oracle) *)
+Definition jwks_world := list (string * list (string * (string * bool))).
 
 Definition jk_ep_fields (c : jk_cfg) : list fld :=
   [FV (jurl_text (jk_url c)); FV "GET"] ++ kv_fields (jk_headers c).
@@ -243,17 +245,25 @@ Definition jk_enabled (c : jk_cfg) : bool := match jk_ttl c with None => true | 
 Definition jk_key (H : string -> string) (c : jk_cfg) (t : jtok) : option string :=
   if jk_enabled c then Some (hex (H (cat (jk_fields H c t)))) else None.
 
-Inductive jk_fetch := JKNoServer | JKNoKey | JKKey (owner : string).
+Inductive jk_fetch := JKNoServer | JKNoKey | JKKey (owner : string) (trusted : bool).
 
 Definition jk_lookup (w : jwks_world) (c : jk_cfg) (t : jtok) : jk_fetch :=
   match lookup (jurl_render (jk_url c) (t_iss t)) w with
   | None => JKNoServer
-  | Some ks => match lookup (t_kid t) ks with None => JKNoKey | Some o => JKKey o end
+  | Some ks => match lookup (t_kid t) ks with None => JKNoKey | Some (o, tr) => JKKey o tr end
   end.
 
 Definition jk_owner_result (o : string) : result :=
   {| rs_sent := {| s_url := ""; s_method := ""; s_headers := []; s_cookies := []; s_auth := ""; s_body := "" |};
      rs_sub := o; rs_scopes := []; rs_aud := []; rs_active := true |}.
+
+(** a cached JWK: whose key it is and whether its certificate chain validates *)
+Definition jk_key_result (o : string) (trusted : bool) : result :=
+  {| rs_sent := {| s_url := ""; s_method := ""; s_headers := []; s_cookies := []; s_auth := ""; s_body := "" |};
+     rs_sub := o; rs_scopes := []; rs_aud := []; rs_active := trusted |}.
+
+(** validateJWK *)
+Definition jk_rejects (c : jk_cfg) (trusted : bool) : bool := jk_validate c && negb trusted.
 
 (** signature verification with the key of [owner] *)
 Definition jk_decide (owner : string) (t : jtok) : outcome :=
@@ -263,24 +273,29 @@ Definition jk_fresh (w : jwks_world) (c : jk_cfg) (t : jtok) : outcome :=
   match jk_lookup w c t with
   | JKNoServer => OErr
   | JKNoKey => ODeny
-  | JKKey o => jk_decide o t
+  | JKKey o tr => if jk_rejects c tr then ODeny else jk_decide o t
   end.
 
-(** getKey + verifyTokenWithKey: the fetched key is cached whatever the verification says *)
-Definition jk_exec (H : string -> string) (w : jwks_world) (cch : cache) (c : jk_cfg) (t : jtok) : sres * cache :=
+(** getKey + verifyTokenWithKey: a fetched key that passes validateJWK is cached whatever the signature
+    verification says; a cached key is used without validateJWK ([fx11]: candidate repair, validated on a hit too) *)
+Definition jk_exec (fx11 : bool) (H : string -> string) (w : jwks_world) (cch : cache) (c : jk_cfg) (t : jtok) : sres * cache :=
   match jk_key H c t with
   | None => ({| sr_key := None; sr_hit := false; sr_calls := 1; sr_out := jk_fresh w c t |}, cch)
   | Some k =>
     match lookup k cch with
-    | Some r => ({| sr_key := Some k; sr_hit := true; sr_calls := 0; sr_out := jk_decide (rs_sub r) t |}, cch)
+    | Some r => ({| sr_key := Some k; sr_hit := true; sr_calls := 0;
+                    sr_out := if fx11 && jk_rejects c (rs_active r) then ODeny else jk_decide (rs_sub r) t |}, cch)
     | None =>
       ({| sr_key := Some k; sr_hit := false; sr_calls := 1; sr_out := jk_fresh w c t |},
-       match jk_lookup w c t with JKKey o => (k, jk_owner_result o) :: cch | _ => cch end)
+       match jk_lookup w c t with
+       | JKKey o tr => if jk_rejects c tr then cch else (k, jk_key_result o tr) :: cch
+       | _ => cch
+       end)
     end
   end.
 
-Fixpoint jk_run (H : string -> string) (w : jwks_world) (cch : cache) (h : list (jk_cfg * jtok)) : list sres :=
+Fixpoint jk_run (fx11 : bool) (H : string -> string) (w : jwks_world) (cch : cache) (h : list (jk_cfg * jtok)) : list sres :=
   match h with
   | [] => []
-  | (c, t) :: r => let '(x, cch') := jk_exec H w cch c t in x :: jk_run H w cch' r
+  | (c, t) :: r => let '(x, cch') := jk_exec fx11 H w cch c t in x :: jk_run fx11 H w cch' r
   end.
